@@ -11,9 +11,9 @@ Generated     quick: one libFuzzer process per target, -runs=N -seed=S (fixed wo
               the targets, -max_total_time each, then every new corpus unit is re-run on the optimised build and the
               interesting ones are merged (-merge=1) into work/C10/merged/<target>. Nothing is written to corpus/.
 Crash         the input is classified from the log: VERIF-PANIC sig=… (panic location, in-target oracle signature),
-              ASan report kind + innermost SDK frame, libFuzzer timeout / out-of-memory / deadly signal. A timeout is
-              re-run alone and only counts when the process needs >= TIMEOUT seconds of CPU time (or 6x that of wall
-              time). Signatures of open entries of known_findings.json -> KNOWN-FINDING; everything else ->
+              ASan report kind + innermost SDK frame, libFuzzer timeout / out-of-memory / deadly signal. The time budget is
+              CPU time of one input measured in-target (VERIF-SLOW); an input that trips libFuzzer's wall-clock alarm
+              (12x the budget) is re-run alone and counts only if it is slow by CPU time or still does not return. Signatures of open entries of known_findings.json -> KNOWN-FINDING; everything else ->
               replays/C10/<target>/last-<sha1>.bin + VIOLATION.
 """
 import glob
@@ -34,9 +34,12 @@ BIN = {"asan": f"{TGT}/fuzz/{TRIPLE}/release", "rel": f"{TGT}/fuzz-rel/{TRIPLE}/
 WORK = f"{ROOT}/work/C10"
 CORPUS = f"{ROOT}/corpus"
 REPLAYS = f"{ROOT}/replays/C10"
+# per-input time budget in CPU seconds, enforced in-target (VERIF-SLOW); libFuzzer's wall-clock alarm is only the
+# hang detector and is set 12x higher because wall-clock time means nothing on a machine shared with other jobs
 TIMEOUT = int(os.environ.get("VERIF_FUZZ_TIMEOUT", "10"))
+WALL = TIMEOUT * 12
 MAX_LEN = 1048576
-LIMITS = [f"-timeout={TIMEOUT}", "-rss_limit_mb=1024", "-malloc_limit_mb=256", "-detect_leaks=0"]
+LIMITS = [f"-timeout={WALL}", f"-report_slow_units={WALL}", "-rss_limit_mb=1024", "-malloc_limit_mb=256", "-detect_leaks=0"]
 
 # target: (quick runs as a fraction of VERIF_FUZZ_RUNS, thorough workers out of 16)
 TARGETS = {
@@ -63,6 +66,7 @@ def env_for(extra=None):
     e["VERIF_FUZZ_STATS_DIR"] = f"{WORK}/stats"
     e["VERIF_ROOT_DIR"] = ROOT
     e["RUST_BACKTRACE"] = "0"
+    e["VERIF_FUZZ_CPU_LIMIT"] = str(TIMEOUT)
     if extra:
         e.update(extra)
     return e
@@ -134,6 +138,9 @@ def classify(log_text, target):
     if m:
         kind = "oracle" if "-oracle:" in m.group(1) else "panic"
         return kind, m.group(1), f"panic at {m.group(2)}: {m.group(3)[:300]}"
+    m = re.search(r"VERIF-SLOW sig=(\S+) cpu_s=(\S+)", log_text)
+    if m:
+        return "slow", m.group(1), f"one input used {m.group(2)} s of CPU time (limit {TIMEOUT} s)"
     idx = next((i for i, l in enumerate(lines) if "ERROR: " in l and ("libFuzzer" in l or "Sanitizer" in l)), None)
     if idx is None:
         return None
@@ -290,22 +297,22 @@ class Driver:
                              "kind": kind, "signature": sig, "what": desc, "log": log, "phase": phase})
 
     def confirm_timeout(self, cr):
-        """Re-run a timed-out input alone; it counts when the process burns >= TIMEOUT s of CPU (or 6x wall)."""
-        wall_limit = TIMEOUT * 6
+        """Re-run an input that tripped the wall-clock alarm alone with a 10x longer alarm: it counts when the
+        in-target CPU clock says >= TIMEOUT s (VERIF-SLOW) or when it still does not return (a real hang)."""
+        wall_limit = WALL * 5
         cmd = [f"{BIN[cr['build']]}/{cr['target']}", f"-timeout={wall_limit}", "-rss_limit_mb=2048", "-detect_leaks=0",
                f"-artifact_prefix={WORK}/artifacts/confirm-", cr["input"]]
-        before = resource.getrusage(resource.RUSAGE_CHILDREN)
         t0 = time.time()
         log = self.log_path(f"confirm-timeout-{cr['target']}")
         with open(log, "wb") as f:
             try:
-                rc = subprocess.call(cmd, stdout=f, stderr=subprocess.STDOUT, env=env_for(), cwd=WORK, timeout=wall_limit + 30)
+                rc = subprocess.call(cmd, stdout=f, stderr=subprocess.STDOUT, env=env_for(), cwd=WORK, timeout=wall_limit + 120)
             except subprocess.TimeoutExpired:
                 rc = -9
-        after = resource.getrusage(resource.RUSAGE_CHILDREN)
-        cpu = (after.ru_utime + after.ru_stime) - (before.ru_utime + before.ru_stime)
-        cr["confirm"] = {"cpu_s": round(cpu, 2), "wall_s": round(time.time() - t0, 2), "rc": rc}
-        return cpu >= TIMEOUT or rc == -9 or "libFuzzer: timeout" in open(log, errors="replace").read()
+        txt = open(log, errors="replace").read()
+        slow = re.search(r"VERIF-SLOW sig=\S+ cpu_s=(\S+)", txt)
+        cr["confirm"] = {"wall_s": round(time.time() - t0, 1), "rc": rc, "cpu_s": slow.group(1) if slow else None, "log": log}
+        return bool(slow) or rc == -9 or "libFuzzer: timeout" in txt
 
     # -- generated tier --------------------------------------------------------------------------------
     def fuzz_proc(self, target, corpus_dir, seed, runs=None, secs=None, tag="fuzz", max_len=MAX_LEN):
@@ -451,7 +458,7 @@ def main():
         if files:
             for b in ("asan", "rel"):
                 procs.append(d.replay_proc(t, b, files))
-    run_pool(procs, min(ncpu, 10), d.on_replay_done, hard_timeout=lambda p: 120 + len(p.files) * (TIMEOUT + 2))
+    run_pool(procs, min(ncpu, 10), d.on_replay_done, hard_timeout=lambda p: 600 + len(p.files) * 30)
 
     # ---- generated tier ----
     if tier == "quick":
@@ -485,7 +492,7 @@ def main():
             d.per_target[t]["new_units_total"] = len(new)
             for i0 in range(0, len(new), 2000):
                 procs.append(d.replay_proc(t, "rel", new[i0:i0 + 2000]))
-        run_pool(procs, min(ncpu, 10), d.on_replay_done, hard_timeout=lambda p: 300 + len(p.files) * (TIMEOUT + 2))
+        run_pool(procs, min(ncpu, 10), d.on_replay_done, hard_timeout=lambda p: 600 + len(p.files) * 30)
         procs = []
         for t in TARGETS:
             cmd = [f"{BIN['asan']}/{t}", "-merge=1"] + LIMITS + [f"-artifact_prefix={WORK}/artifacts/{t}/merge-", f"{WORK}/merged/{t}", f"{WORK}/corpus/{t}", f"{WORK}/empty/{t}"]
@@ -587,14 +594,14 @@ def finish(d, t_start):
             "evaluations": int(evaluations),
             "distinct_nontrivial": int(distinct),
             "rule": ("Inputs: coverage-guided mutation (libFuzzer, ASan build with debug assertions and overflow checks, -len_control=0, -max_len=1 MiB, "
-                     f"-timeout={TIMEOUT} s, -rss_limit_mb=1024, -malloc_limit_mb=256) of a seed corpus of minimised fixtures, synthesised containers of 16 kinds "
+                     f"time budget {TIMEOUT} s CPU per input measured in-target, wall-clock alarm {WALL} s, -rss_limit_mb=1024, -malloc_limit_mb=256) of a seed corpus of minimised fixtures, synthesised containers of 16 kinds "
                      "(plain / fake store / real signed store / signed), bare manifest stores, sidecars, builder and ingredient archives, through nine in-process "
                      "targets (fuzz_read under all format hints, fuzz_store, fuzz_sidecar, fuzz_ingredient, fuzz_archive, fuzz_write, structure-aware fuzz_struct, "
                      "fuzz_store_mut with the C02 oracle, fuzz_store_rt with the C18 oracle), fresh Context per input (no network, 1 MB decompression limit). "
                      "Every corpus and regression file is also executed by a plain optimised build. evaluations = executed units reported by libFuzzer "
                      "(stat::number_of_executed_units) + files replayed on both builds. Non-trivial / distinct = units libFuzzer kept in its corpus because they "
                      "covered new features (corp count of the final status line, summed over targets); an input counts as failing on a panic, an ASan report, "
-                     "a per-input time-out (confirmed alone by CPU time), an allocation over the malloc limit or RSS over the limit."),
+                     "exceeding the per-input CPU-time budget, an allocation over the malloc limit or RSS over the limit."),
             "samples": samples[:24],
             "per_target": d.per_target,
             "known_panics_tolerated": [{"target": t, "signature": s, "count": n} for (t, s), n in sorted(tol.items())],
